@@ -381,6 +381,7 @@ class TaggedFields(AbstractType[dict[int, bytes]]):
             assert isinstance(v, bytes), f"Value {v!r} is not a byte array"
             assert isinstance(k, int) and k > 0, f"Key {k} is not a positive integer"
             ret += UnsignedVarInt32.encode(k)
+            ret += UnsignedVarInt32.encode(len(v))
             ret += v
         return ret
 
